@@ -133,6 +133,7 @@ func (c *Ctx) ruleWhoMayCall(rule, what string, p sitePred, allowed []string, fl
 }
 
 func c03(c *Ctx) {
+	c03RecoveredValues(c, "C03.7/recovered-precommitted-txs-have-their-values")
 	// ---- C03.1 store commit ordering -------------------------------------------------------
 	r := "C03.1/store-sync-order"
 	if f := c.mustFn(r, storeT+"sync"); f != nil {
@@ -366,4 +367,92 @@ func c03Index(c *Ctx) {
 	}
 	c.ruleWhoMayCall(r, "TBtree.writeTsFile", callTo("embedded/tbtree.(*TBtree).writeTsFile"),
 		[]string{"embedded/tbtree.(*TBtree).Close", "embedded/tbtree.(*TBtree).IncreaseTs"}, 1)
+}
+
+// c03RecoveredValues: the tx log and the value logs are buffered and flushed independently, so after a stop the tx log
+// can hold transactions whose values never reached their value log. At open, a transaction read from the tail of the
+// tx log is taken back as precommitted (cLogBuf.put, later committed) only after its entries' value ranges were
+// compared with the sizes of the value logs: between reading it and accepting it, a call that reaches a Size() of an
+// element of the vLogs parameter is passed and its verdict is acted upon.
+func c03RecoveredValues(c *Ctx, r string) {
+	f := c.mustFn(r, "embedded/store.OpenWith")
+	if f == nil {
+		return
+	}
+	from := sites(f, callTo("embedded/store.(*Tx).readFrom"))
+	put := callTo("embedded/store.(*precommitBuffer).put")
+	if len(from) == 0 || len(sites(f, put)) == 0 {
+		c.undecided(r, fnName(f), "the reload loop (Tx.readFrom ... precommitBuffer.put) was not found")
+		return
+	}
+	var looksAtVLogSizes func(g *ssa.Function, depth int) bool
+	looksAtVLogSizes = func(g *ssa.Function, depth int) bool {
+		if g == nil || len(g.Blocks) == 0 || depth > 2 {
+			return false
+		}
+		found := false
+		allInstrs(g, false, func(in ssa.Instruction) {
+			cc := callOf(in)
+			if cc == nil || found {
+				return
+			}
+			if cc.IsInvoke() && cc.Method.Name() == "Size" && strings.Contains(strings.ToLower(desc(cc.Value)), "vlogs") {
+				found = true
+				return
+			}
+			if sc := cc.StaticCallee(); sc != nil && fnInPkgs(sc, []string{"embedded/store"}) && looksAtVLogSizes(sc, depth+1) {
+				found = true
+			}
+		})
+		return found
+	}
+	via := func(in ssa.Instruction) bool {
+		cc := callOf(in)
+		if cc == nil {
+			return false
+		}
+		if cc.IsInvoke() && cc.Method.Name() == "Size" && strings.Contains(strings.ToLower(desc(cc.Value)), "vlogs") {
+			return true
+		}
+		sc := cc.StaticCallee()
+		if sc == nil || !fnInPkgs(sc, []string{"embedded/store"}) || callTo("embedded/store.(*Tx).readFrom")(in) {
+			return false
+		}
+		// the vLogs are handed to the helper
+		passes := false
+		for _, a := range cc.Args {
+			if strings.Contains(strings.ToLower(desc(a)), "vlogs") {
+				passes = true
+			}
+		}
+		return passes && looksAtVLogSizes(sc, 0)
+	}
+	q := &pathQ{fn: f, from: from, to: put, via: via}
+	if w := q.bypass(); w != nil {
+		c.fail(r, fnName(f)+":values-checked-before-reload", c.pos(w[len(w)-1].Pos()), "a transaction found in the tail of the tx log is taken back as precommitted without its values having been looked for in the value logs: "+c.witnessStr(w))
+		return
+	}
+	c.ok(r, fnName(f)+":values-checked-before-reload", c.pos(from[0].Pos()), "every path from Tx.readFrom to precommitBuffer.put passes a comparison with the value-log sizes")
+	// ... and a negative verdict ends the reload: the helper's boolean result feeds a branch
+	used := false
+	for _, in := range sites(f, via) {
+		if cl, ok := in.(*ssa.Call); ok {
+			for _, rf := range *cl.Referrers() {
+				if ex, ok := rf.(*ssa.Extract); ok {
+					for _, r2 := range *ex.Referrers() {
+						if _, isIf := r2.(*ssa.If); isIf {
+							used = true
+						}
+						if bo, isBo := r2.(*ssa.BinOp); isBo && len(*bo.Referrers()) > 0 {
+							used = true
+						}
+						if u, isU := r2.(*ssa.UnOp); isU && len(*u.Referrers()) > 0 {
+							used = true
+						}
+					}
+				}
+			}
+		}
+	}
+	c.check(used, r, fnName(f)+":verdict-acted-upon", c.pos(from[0].Pos()), "the verdict of the value check feeds a branch", "the result of the value check is not used")
 }
